@@ -24,6 +24,7 @@ fn main() {
             .unwrap_or(engine::DEFAULT_SEED),
         replay: None,
         cases_override: None,
+        frac: None,
         strict: false,
         no_evidence: false,
         threads: std::thread::available_parallelism().map(|n| n.get()).unwrap_or(4).min(16),
@@ -51,6 +52,10 @@ fn main() {
             "--cases" => {
                 i += 1;
                 opts.cases_override = args.get(i).and_then(|s| s.parse().ok());
+            }
+            "--frac" => {
+                i += 1;
+                opts.frac = args.get(i).and_then(|s| s.parse().ok());
             }
             "--threads" => {
                 i += 1;
